@@ -225,24 +225,11 @@ def run(ctx, chk):
                       key="C02:assemble_str")
         except Anchor as ex:
             chk.bad(RW, inst, "not analysable: %s" % ex, raw.where("assemble_str", None, "assemble.rs"), key="C02:assemble_str-shape")
-    sf = dm.get("string")
-    prob = string_consumed_shape(sf["fn"]) if sf else "Decoder::string missing"
-    chk.check(RW, prob is None, "Decoder::string:consumed-words", prob or "", raw.where("string", "Decoder"))
+    from . import stringx as _sx
+    prob = _sx.string_problem(ctx) if dm.get("string") else "Decoder::string missing"
+    chk.check(RW, prob is None, "Decoder::string:inverse-of-assemble_str", "the string request does not read back what assemble_str packs (the bytes before "
+              "the first NUL, whole words consumed): %s" % prob, raw.where("string", "Decoder"))
     chk.analysed.update({"kinds": len(kinds), "variants": len(ov), "decoder_methods": len(dm), "triples": len(triples),
                          "parameter_entries": sum(len(d["entries"]) for d in pa.values())})
 
 
-def string_consumed_shape(f):
-    for s in f["body"][1]:
-        if s[0] == "local" and s[1][0] == "p_ident" and s[1][1] == "consumed_words":
-            e = s[3]
-            if e[0] == "binary" and e[1] == "+" and int_of(e[3]) == 1 and e[2][0] == "binary" and e[2][1] == "/":
-                d = e[2][3]
-                if int_of(d) == 4 or path_of(d) == "WORD_NUM_BYTES":
-                    return None
-            return "consumed words computed as %s, not first_null / 4 + 1" % show(e)
-    # renamed local: look for the formula anywhere
-    for n in walk(f["body"]):
-        if n[0] == "binary" and n[1] == "+" and int_of(n[3]) == 1 and is_node(n[2]) and n[2][0] == "binary" and n[2][1] == "/":
-            return None
-    return "no `first_null / 4 + 1` word count found"
